@@ -4,6 +4,7 @@ of LCA databases (in-memory / JSON-loaded / SQLite twin), one API-level operatio
 per line.  See harness/streams/lca.py for the op list.
 -/
 import SmVerif.Model.LcaDb
+import SmVerif.Model.LcaIndex
 import SmVerif.Model.Proto
 
 namespace Sm.DriverLca
@@ -58,8 +59,10 @@ def showAssignments (r : Except Lca.Err (List Lineage)) : String :=
   | .ok ls => "ok " ++ joinOr "|" (sortStrs (ls.map showLineage))
   | .error e => "err " ++ errName e
 
-def showSigs (l : List (Nat × String × List Nat)) : String :=
-  "ok " ++ joinOr "|" (sortStrs (l.map (fun p => tokOf p.2.1 ++ "=" ++ joinOr "," (p.2.2.map toString))))
+/-- `marker`: `@scaled<x>` when the sketches are not at the database's scaled (the SQLite form after a
+    `downsample_scaled` its `signatures()` does not honour: finding C18.3) -/
+def showSigs (l : List (Nat × String × List Nat)) (marker : String := "") : String :=
+  "ok " ++ joinOr "|" (sortStrs (l.map (fun p => tokOf p.2.1 ++ marker ++ "=" ++ joinOr "," (p.2.2.map toString))))
 
 def lookAll (st : St) (ds : List Nat) : Option (Nat → List (List Lineage)) :=
   match ds.mapM (getDb st) with
@@ -71,20 +74,41 @@ def lookAll (st : St) (ds : List Nat) : Option (Nat → List (List Lineage)) :=
 def showCounts (c : List (Lineage × Nat)) : String :=
   "ok " ++ joinOr "|" (sortStrs (c.map (fun p => showLineage p.1 ++ "=" ++ toString p.2)))
 
-def mkSig (name filename : String) (scaled num ksize : Nat) (hs : List Nat) : Option Sig :=
+def mkSig (name filename : String) (scaled num ksize : Nat) (hs : List Nat) (moltype : Nat := 0)
+    (md5 : String := "") : Option Sig :=
   if (scaled ≠ 0 ∧ num ≠ 0) ∨ (scaled = 0 ∧ num = 0) then none
   else
     let kept := if num = 0 then Dict.sortAsc (hs.filter (· ≤ mhR scaled)) else (Dict.sortAsc hs).take num
-    some { name, filename, ksize, moltype := 0, num, scaled, hashes := kept }
+    some { name, filename, ksize, moltype, num, scaled, hashes := kept, md5 }
+
+/-- optional trailing `mol=<n>` / `md5=<hex>` tokens -/
+def optTok (key : String) (ws : List String) : Option String :=
+  (ws.find? (fun w => w.startsWith (key ++ "="))).map (fun w => (w.drop (key.length + 1)).toString)
+
+/-- `k21,s10,m0,C2,nh,f,si,kv,rt,fm` -/
+def idxOpts (tok : String) : LcaIndex.Opts :=
+  let ws := tok.splitOn ","
+  let num := fun (pre : String) (d : Nat) =>
+    ((ws.find? (fun w => w.startsWith pre && ((w.drop pre.length).toString.toNat?).isSome)).bind
+      (fun w => (w.drop pre.length).toString.toNat?)).getD d
+  { ksize := num "k" 21, scaled := num "s" 1, moltype := num "m" 0, startColumn := num "C" 2,
+    noHeaders := ws.contains "nh", force := ws.contains "f", splitIdents := ws.contains "si",
+    keepVersions := ws.contains "kv", requireTax := ws.contains "rt", failMissing := ws.contains "fm" }
+
+def csvRows (tok : String) : List (List String) :=
+  if tok = "-" then []
+  else (tok.splitOn "/").map (fun r => if r = "!" then [] else (r.splitOn ";").map (fun c => c.replace "~" " "))
 
 def step (st : St) (line : String) : St × String :=
   let bad := (st, "bad-op")
   match words line with
   | "#" :: _ => (init, "#")
-  | ["sig", r, name, filename, scaled, num, ksize, hs] =>
+  | "sig" :: r :: name :: filename :: scaled :: num :: ksize :: hs :: opts =>
     match nats? [r, scaled, num, ksize], natList? hs with
     | some [r, scaled, num, ksize], some hs =>
-      match mkSig (nameOf name) (nameOf filename) scaled num ksize hs with
+      let mol := ((optTok "mol" opts).bind nat?).getD 0
+      let md5 := (optTok "md5" opts).getD ""
+      match mkSig (nameOf name) (nameOf filename) scaled num ksize hs mol md5 with
       | some s =>
         -- the structural name splitting of the model against `String.splitOn`
         if firstWord s.name ≠ (s.name.splitOn " ").headD "" ∨ dotPrefix s.name ≠ (s.name.splitOn ".").headD "" then
@@ -92,10 +116,18 @@ def step (st : St) (line : String) : St × String :=
         else ({ st with sigs := Dict.set st.sigs r s }, "ok " ++ joinOr "," (s.hashes.map toString))
       | none => (st, "err ValueError")
     | _, _ => bad
-  | ["db", d, ksize, scaled] =>
+  | "db" :: d :: ksize :: scaled :: opts =>
     match nats? [d, ksize, scaled] with
-    | some [d, ksize, scaled] => (putDb st d (.mem (Db.new ksize scaled 0)), "ok")
+    | some [d, ksize, scaled] =>
+      (putDb st d (.mem (Db.new ksize scaled (((optTok "mol" opts).bind nat?).getD 0))), "ok")
     | _ => bad
+  | ["info", d] =>
+    match nat? d with
+    | some d => match getDb st d with
+      | some (.mem db) => (st, s!"ok ksize={db.ksize} scaled={db.scaled} mol={db.moltype}")
+      | some (.sql s) => (st, s!"ok ksize={s.ksize} scaled={s.scaled} mol={s.moltype}")
+      | none => bad
+    | none => bad
   | ["ins", d, r, ident, lin] =>
     match nats? [d, r], lineage? lin with
     | some [d, r], some lin =>
@@ -148,7 +180,9 @@ def step (st : St) (line : String) : St × String :=
       | some (.mem db) => (st, match db.signatures with
         | .ok l => showSigs l
         | .error e => "err " ++ errName e)
-      | some (.sql s) => (st, showSigs s.signatures)
+      | some (.sql s) =>
+        let sketchScaled := if Gen.sqlDownHonoured && decide (s.storedScaled < s.scaled) then s.scaled else s.storedScaled
+        (st, showSigs s.signatures (if sketchScaled = s.scaled then "" else s!"@scaled{sketchScaled}"))
       | none => bad
     | none => bad
   | ["down", d, sc] =>
@@ -206,6 +240,22 @@ def step (st : St) (line : String) : St × String :=
             s!"ok {stat} {showLineage r.1}"
           | .error _ => "err ValueError")
     | _, _, _, _ => bad
+  | ["index", d, opts, sigs, csv] =>
+    match nat? d, natList? sigs with
+    | some d, some rs =>
+      match rs.mapM (fun r => Dict.get? st.sigs r) with
+      | none => bad
+      | some sgs =>
+        match LcaIndex.lcaIndex (idxOpts opts) sgs (csvRows csv) with
+        | .error (.exit c) => (st, s!"exit {c}")
+        | .error .exc => (st, "err Exception")
+        | .ok r =>
+          -- the database is written as JSON and loaded back
+          (putDb st d (.mem r.db.jsonRoundTrip),
+           "ok report=" ++ (match r.report with
+             | some l => joinOr "," (l.map toString)
+             | none => "-"))
+    | _, _ => bad
   | ["pop", rank, lin] =>
     match nat? rank, lineage? lin with
     | some rank, some lin => (st, "ok " ++ showLineage (popToRank lin rank))
